@@ -41,6 +41,29 @@ STRUCT_SIZE = {'struct s1': 8, 'struct s2': 16, 'struct s3': 24, 'struct s4': 1,
                'struct s6': 24}
 STRUCT_ALIGN = {'struct s1': 4, 'struct s2': 8, 'struct s3': 8, 'struct s4': 1, 'struct s5': 4,
                 'struct s6': 8}
+# structs with multi-dimensional array fields (no padding anywhere, so the object representation is the
+# concatenation of the items): name -> (C field declarations, flattened item types in memory order, size, align).
+# fb_fill_type flattens such fields into libffi's elements[]; <= 16 bytes travel in registers on x86-64.
+ASTRUCTS = {
+    'struct a1': ("float f[2][2];", ['float'] * 4, 16, 4),
+    'struct a2': ("double d[1][2];", ['double'] * 2, 16, 8),
+    'struct a3': ("int i[2][2];", ['int'] * 4, 16, 4),
+    'struct a4': ("char c[2][2][2]; int k;", ['char'] * 8 + ['int'], 12, 4),
+    'struct a5': ("float f[2][3];", ['float'] * 6, 24, 4),
+    'struct a6': ("int i[2][2][2];", ['int'] * 8, 32, 4),
+    'struct a7': ("char c[3][2]; short h[2][2];", ['char'] * 6 + ['short'] * 4, 14, 2),
+    'struct a8': ("double d[2][2];", ['double'] * 4, 32, 8),
+    'struct a9': ("float f[2]; float g[1][2];", ['float'] * 4, 16, 4),
+    'struct a10': ("short h[2][2][2]; float x[1][1][2]; ", ['short'] * 8 + ['float'] * 2, 24, 4),
+    'struct a11': ("unsigned char u[2][4]; double d[1][1];", ['unsigned char'] * 8 + ['double'], 16, 8),
+}
+# nested initializer shape of each field: list of (dims, number of items)
+ASHAPES = {
+    'struct a1': [[2, 2]], 'struct a2': [[1, 2]], 'struct a3': [[2, 2]], 'struct a4': [[2, 2, 2], []],
+    'struct a5': [[2, 3]], 'struct a6': [[2, 2, 2]], 'struct a7': [[3, 2], [2, 2]], 'struct a8': [[2, 2]],
+    'struct a9': [[2], [1, 2]], 'struct a10': [[2, 2, 2], [1, 1, 2]], 'struct a11': [[2, 4], [1, 1]],
+}
+
 # pointer parameter types: name -> (item type name or 'void', const?)
 PTRS = {
     'int *': ('int', 0), 'short *': ('short', 0), 'unsigned char *': ('unsigned char', 0),
@@ -65,6 +88,8 @@ def sizeof(t):
         return FLOATS[t]
     if t in STRUCTS:
         return STRUCT_SIZE[t]
+    if t in ASTRUCTS:
+        return ASTRUCTS[t][2]
     if t in PTRS or t == FNPTR:
         return 8
     if t == 'void':
@@ -75,6 +100,8 @@ def sizeof(t):
 def alignof(t):
     if t in STRUCTS:
         return STRUCT_ALIGN[t]
+    if t in ASTRUCTS:
+        return ASTRUCTS[t][3]
     return sizeof(t)
 
 
@@ -89,6 +116,8 @@ def kind(t):
         return 'float'
     if t in STRUCTS:
         return 'struct'
+    if t in ASTRUCTS:
+        return 'astruct'
     if t in PTRS:
         return 'ptr'
     if t == FNPTR:
@@ -111,6 +140,7 @@ struct s4 { signed char c; };
 struct s5 { float x, y; };
 struct s6 { unsigned char u; unsigned short h; uint64_t q; int w; };
 typedef int (*c13_cb_t)(int);
+""" + "".join("%s { %s };\n" % (n, d[0]) for n, d in sorted(ASTRUCTS.items())) + """
 """
 
 CDEF_GLOBALS = """
@@ -165,6 +195,8 @@ def c_literal(t, v):
         return "(%s)%s" % (t, d.hex())
     if k == 'struct':
         return "(%s){%s}" % (t, ", ".join(c_literal(ft, fv) for (fn, ft), fv in zip(STRUCTS[t], v)))
+    if k == 'astruct':      # flat initializer (brace elision)
+        return "(%s){%s}" % (t, ", ".join(c_literal(ft, fv) for ft, fv in zip(ASTRUCTS[t][1], v)))
     if k == 'ptr':
         return "(%s)0" % t if v is None else "(%s)(c13_gbuf + %d)" % (t, v)
     raise KeyError(t)
@@ -178,6 +210,8 @@ def rec_code(t, expr, j):
         return "c13_put(&%s, sizeof(%s));" % (expr, expr)
     if k == 'struct':
         return " ".join(rec_code(ft, "%s.%s" % (expr, fn), j) for fn, ft in STRUCTS[t])
+    if k == 'astruct':      # no padding: the whole object representation
+        return "c13_put(&%s, sizeof(%s));" % (expr, expr)
     if k == 'ptr':
         return "c13_ptr((const void *)%s, c13_plen[%d], %d);" % (expr, j, 0 if PTRS[t][1] else 1)
     if k == 'fnptr':
